@@ -19,7 +19,7 @@ from rsocket.frame import (KeepAliveFrame,
                            FragmentableFrame, FrameFragmentMixin, MINIMUM_FRAGMENT_SIZE_BYTES)
 from rsocket.frame import (RequestChannelFrame, ResumeFrame,
                            is_fragmentable_frame, CONNECTION_STREAM_ID)
-from rsocket.frame import SetupFrame
+from rsocket.frame import SetupFrame, PayloadFrame
 from rsocket.frame_builders import to_payload_frame, to_fire_and_forget_frame, to_setup_frame, to_metadata_push_frame, \
     to_keepalive_frame
 from rsocket.frame_fragment_cache import FrameFragmentCache
@@ -362,6 +362,15 @@ class RSocketBase(RSocket, RSocketInternal):
                     logger().error('%s: Unknown error', self._log_identifier(), exc_info=True)
                     self.send_error(frame.stream_id, exception)
 
+    def _is_fragment_of_unknown_stream(self, frame: Frame) -> bool:
+        # A payload fragment continues either a frame of a registered stream or a request which is still
+        # being reassembled. Anything else (e.g. in flight for a stream which has finished) must not be
+        # buffered: nothing would ever remove it.
+        return (isinstance(frame, PayloadFrame)
+                and frame.flags_follows
+                and not self._stream_control.is_stream_registered(frame.stream_id)
+                and not self._frame_fragment_cache.has_partial_frame(frame.stream_id))
+
     async def _handle_next_frame(self, frame: Frame, async_frame_handler_by_type):
 
         log_frame(frame, self._log_identifier())
@@ -370,6 +379,11 @@ class RSocketBase(RSocket, RSocketInternal):
             return
 
         if is_fragmentable_frame(frame):
+            if self._is_fragment_of_unknown_stream(frame):
+                logger().warning('%s: Dropping fragment from unknown stream %d', self._log_identifier(),
+                                 frame.stream_id)
+                return
+
             complete_frame = self._frame_fragment_cache.append(cast(FragmentableFrame, frame))
             if complete_frame is None:
                 return
